@@ -678,6 +678,11 @@ func valClasses(call, want, got string) (string, string) {
 	case "ReadDir", "Open.Readdirnames", "WalkDir":
 		return "listing", "other-listing"
 	case "Sub":
+		if strings.HasPrefix(want, "/ d ") && strings.HasPrefix(got, "/ l ") {
+			// the view is rooted at a symbolic link to a directory, not at the directory
+			return "subtree", "root-is-symlink"
+		}
+
 		return "subtree", "other-subtree"
 	}
 
